@@ -77,6 +77,7 @@ class RefStepper:
         self.scale = 0.0               # largest magnitude seen in sums (absolute tolerance scale)
         self.inexact_events = 0
         self.probes = {}
+        self.cur_op = None
         self.op_trace = None
 
     # R interface used by the expression trees
@@ -103,7 +104,7 @@ class RefStepper:
             return ref_builtin(fn, args, kwargs)
         if self.call_hook is not None:
             return self.call_hook(fn, args, kwargs)
-        return FUNCS[fn][1](*args, **kwargs)
+        return self.sc.func_impl(fn)(*args, **kwargs)
 
     def probe(self, name):
         self.probes[name] = self.probes.get(name, 0) + 1
@@ -118,7 +119,7 @@ class RefStepper:
         self.vars[name] = value
         if self.writes is not None and is_persistent(name):
             self.writes.setdefault(name, []).append(
-                value.copy() if isinstance(value, np.ndarray) else value)
+                (self.cur_op, value.copy() if isinstance(value, np.ndarray) else value))
 
     def _assign(self, op):
         _, tgt, sub, e, loops, _mode = op
@@ -140,7 +141,7 @@ class RefStepper:
                     raise IllDefined("array-into-element")
                 self.vars[name][i] = v
                 if self.writes is not None and is_persistent(name):
-                    self.writes.setdefault(name, []).append(("elem", int(i), v))
+                    self.writes.setdefault(name, []).append((self.cur_op, ("elem", int(i), v)))
 
         def run_loops(ls):
             if not ls:
@@ -173,6 +174,7 @@ class RefStepper:
     def exec_block(self, ops):
         for op in ops:
             k = op[0]
+            self.cur_op = op
             if k == "assign":
                 self._assign(op)
             elif k == "call":
@@ -189,6 +191,7 @@ class RefStepper:
                         self._store(self.nm(a), r)
             elif k == "if":
                 _, form, then, else_ = op
+                self.cur_op = op
                 if form[0] == "1":
                     flag = form[1].ev(self, True)
                 else:
